@@ -109,26 +109,26 @@ def run(run):
         E = effects.Effects(F)
         run.count('fact units')
         run.count('functions', len(F.fns))
-        records.placement_news(run, 'C18.a', F)
-        records.externals(run, 'C18.a', F)
-        records.payload_layout(run, 'C18.b', F)
-        records.member_alignment(run, 'C18.b', F)
-        records.definite_init(run, 'C18.c', F)
-        records.reinterpret_casts(run, 'C18.d', F)
-        shift_rules(run, F, E)
-        extent_rules(run, F)
-        subscript_rules(run, F, E)
+        run.guard('placement news', records.placement_news, run, 'C18.a', F)
+        run.guard('externals', records.externals, run, 'C18.a', F)
+        run.guard('payload layout', records.payload_layout, run, 'C18.b', F)
+        run.guard('member alignment', records.member_alignment, run, 'C18.b', F)
+        run.guard('definite init', records.definite_init, run, 'C18.c', F)
+        run.guard('reinterpret casts', records.reinterpret_casts, run, 'C18.d', F)
+        run.guard('shift rules', shift_rules, run, F, E)
+        run.guard('extent rules', extent_rules, run, F)
+        run.guard('subscript rules', subscript_rules, run, F, E)
         facts.drop(F)
         cfgmod.clear_cache()
     for w, c in (('w_core', 'PSHL'), ('w_pay', 'P'), ('w_shared', 'PS'), ('w_core', 'PSHVRDT')):
-        object_symbols(run, w, c)
+        run.guard('object symbols', object_symbols, run, w, c)
     run.floor('C18.a', 60)
     run.floor('C18.b', 100)
     run.floor('C18.c', 100)
     run.floor('C18.d', 60)
     # the byte storage behind every bit container really has ceil(N/8) bytes for every N up to 255 (type-level, exhaustive)
     from gen import static_units
-    static_units.report(run, 'C18.e', static_units.capacity_unit('C18.e'))
+    run.guard('report', static_units.report, run, 'C18.e', static_units.capacity_unit('C18.e'))
     run.floor('C18.e', 1)
     # the task pool hands out and takes back slot indices; that they stay inside the array rests on its vacant-list discipline, which is
     # decided per operation on effect summaries (C10.a/c) -- an obligation of C18 too (a slip there ends in an out-of-bounds store)
@@ -136,7 +136,7 @@ def run(run):
     from lint import effects as _eff
     for v_ in facts.variants(run.tier):
         F_ = facts.load('w_core', 'P', v_)
-        _c10.task_list_summaries(run, F_, _eff.Effects(F_))
+        run.guard('task list summaries', _c10.task_list_summaries, run, F_, _eff.Effects(F_))
         facts.drop(F_)
     run.relabel('C10.a', 'C18.f')
     run.relabel('C10.c', 'C18.f')
